@@ -22,6 +22,8 @@ PMax(a, b) == IF PLe(a, b) THEN b ELSE a
 PIsNeg(a) == a[1] < 0
 \* a * k for a small non-negative integer k (k * 2047 must fit an int)
 PMulInt(a, k) == LET r == a[2] * k IN <<a[1] * k + (r \div SECT), r % SECT>>
+\* ss * k bytes for 0 <= ss < 4096 and 0 <= k < 2^29 (sector size times sector number)
+PMulSmall(ss, k) == PAdd(<<ss * (k \div SECT), 0>>, P(ss * (k % SECT)))
 \* convert to an ordinary integer; only legal when the value fits (|s| < 2^20)
 PInt(a) == a[1] * SECT + a[2]
 PFits(a) == a[1] > -1048576 /\ a[1] < 1048576
